@@ -537,6 +537,121 @@ def _stale_queue_chunk(params, lo, hi):
     return r
 
 
+def large_graphs():
+    """larger structured digraphs (name, n, arcs): chains walked from either end, a grid, complete graphs with modular
+    weights, a layered graph - sizes at which queues hold dozens of entries and rounds are counted in tens"""
+    out = []
+    n = 40
+    out.append(("chain_down_40", n, [(i + 1, i, 1 + i % 3) for i in range(n - 1)]))
+    out.append(("chain_up_40_with_shortcuts", n, [(i, i + 1, 2) for i in range(n - 1)] + [(i, i + 5, 11) for i in range(0, n - 5, 5)]))
+    g = 6
+    ge = []
+    for i in range(g):
+        for j in range(g):
+            for di, dj in ((0, 1), (1, 0), (0, -1), (-1, 0)):
+                a, b = i + di, j + dj
+                if 0 <= a < g and 0 <= b < g:
+                    ge.append((i * g + j, a * g + b, (i * 3 + j * 5 + di + 2 * dj) % 7 + 1))
+    out.append(("grid6x6", g * g, ge))
+    for k, (a, b, m) in ((9, (1, 3, 17)), (11, (3, 1, 19))):
+        out.append((f"K{k}_directed", k, [(i, j, (a * i * j + b * (i + 2 * j)) % m + 1) for i in range(k) for j in range(k) if i != j]))
+    lay = []
+    for L in range(5):
+        for x in range(4):
+            for y in range(4):
+                lay.append((1 + L * 4 + x, 1 + (L + 1) * 4 + y, (L + 2 * x + 3 * y) % 5 + 1) if L < 4 else (1 + L * 4 + x, 21, x + 1))
+    lay += [(0, 1 + x, x + 1) for x in range(4)]
+    out.append(("layered_4x5", 22, sorted(set(lay))))
+    return out
+
+
+def _fixpoint_dists(n, arcs, s):
+    d = [INF] * n
+    d[s] = 0
+    changed = True
+    while changed:
+        changed = False
+        for u, v, x in arcs:
+            if d[u] != INF and d[u] + x < d[v]:
+                d[v] = d[u] + x
+                changed = True
+    return d
+
+
+def _run_large(r, name, n, arcs):
+    from solvor.a_star import astar
+    from solvor.bellman_ford import bellman_ford
+    from solvor.dijkstra import dijkstra, dijkstra_edges
+    from solvor.floyd_warshall import floyd_warshall
+    from solvor.types import Status
+
+    wit = {"large": name}
+    adjw = [[] for _ in range(n)]
+    for u, v, x in arcs:
+        adjw[u].append((v, x))
+    el3 = [(u, v, float(x)) for u, v, x in arcs]
+    D = [_fixpoint_dists(n, arcs, s) for s in range(n)]
+
+    def emit(fname, kind, detail):
+        r["violations"].append(viol(fname, kind, dict(wit, function=fname), f"{fname} on {name}: {detail}"))
+
+    def count(fname, label):
+        r["n"] += 1
+        r["nontrivial"] += 1
+        r["outcomes"][f"large:{fname}:{label}"] += 1
+
+    fw = floyd_warshall(n, el3, backend="python")
+    count("floyd_warshall", fw.status.name)
+    if fw.status != Status.OPTIMAL or fw.solution != [[float(x) if x != INF else INF for x in row] for row in D]:
+        emit("floyd_warshall", "wrong_distances", f"status {fw.status.name}, matrix differs from the fixpoint distances")
+    for s in sorted({0, 1, n // 2, n - 1}):
+        want = {t: D[s][t] for t in range(n) if D[s][t] != INF}
+        res = dijkstra_edges(n, el3, s, backend="python")
+        count("dijkstra_edges", "all")
+        if res.solution != want:
+            emit("dijkstra_edges", "wrong_distances", f"from {s}: {res.solution}, true {want}")
+        res = bellman_ford(s, el3, n, backend="python")
+        count("bellman_ford", res.status.name)
+        if res.status != Status.OPTIMAL or res.solution != want:
+            emit("bellman_ford", "wrong_distances", f"from {s}: status {res.status.name}, {res.solution}, true {want}")
+        for t in sorted({0, n // 3, n - 1}):
+            for fname, fn in (("dijkstra", lambda: dijkstra(s, t, lambda u: adjw[u])), ("astar", lambda: astar(s, t, lambda u: adjw[u], lambda x: 0)), ("bellman_ford", lambda: bellman_ford(s, el3, n, target=t, backend="python")), ("dijkstra_edges", lambda: dijkstra_edges(n, el3, s, target=t, backend="python"))):
+                res = fn()
+                count(fname, res.status.name)
+                if D[s][t] == INF:
+                    if res.status != Status.INFEASIBLE:
+                        emit(fname, "path_to_unreachable", f"{s}->{t}: status {res.status.name}")
+                    continue
+                if res.status != Status.OPTIMAL or res.objective != D[s][t]:
+                    emit(fname, "not_shortest", f"{s}->{t}: status {res.status.name}, objective {res.objective}, true shortest distance {D[s][t]}")
+                    continue
+                path = res.solution
+                cost = 0
+                ok = path and path[0] == s and path[-1] == t
+                for a, b in zip(path, path[1:]) if ok else ():
+                    ws = [x for v, x in adjw[a] if v == b]
+                    if not ws:
+                        ok = False
+                        break
+                    cost += min(ws)
+                if not ok or cost != D[s][t]:
+                    emit(fname, "bad_path", f"{s}->{t}: path {path} is not a path of weight {D[s][t]}")
+    if not r["samples"]:
+        r["samples"].append(wit)
+
+
+def _large_chunk(params, lo, hi):
+    gs = large_graphs()
+    r = new_result()
+    for idx in range(lo, hi):
+        name, n, arcs = gs[idx // 2]
+        if idx % 2:
+            arcs = list(reversed(arcs))
+            name += "/reversed_list"
+        _guarded_suite(r, _run_large, (name, n, arcs), {"large": name}, "shortest_path")
+    return r
+
+
 def _n4_chunk(params, lo, hi):
     """4 nodes, exactly k arcs (no self loops), weights over alpha: index = comb_index * |alpha|^k + weights"""
     k, alpha, negative = params
@@ -688,6 +803,7 @@ def _terrain_chunk(params, lo, hi):
 
 def jobs(tier, seed):
     js = []
+    js.append(Job("large_structured", len(large_graphs()) * 2, _large_chunk, None, chunk=1, describe="chains of 40 nodes walked from either end, 6x6 grid, directed K9/K11 with modular weights, a 4x5 layered graph; both arc-list orders; reference: relaxation to a fixpoint"))
     js.append(Job("n4_stale_queue_entries", 8 * 2 * 16 * 7 * 5 * 2, _stale_queue_chunk, None, describe="4 nodes, two bundles of parallel arcs with decreasing weights and a direct arc to the target queued early: nine queue entries when the second node is settled"))
     js.append(Job("n4_parallel_weight_ladders", 4**5 * 4, _ladder_chunk, None, describe="4 nodes, bundles of 4 and 5 parallel arcs with laddered weights (labels improved up to five times), three more arcs, all base weights 1..4"))
     js.append(Job("n6_subsets_of_declared_arcs", 2 ** len(P6) * 4, _p6_chunk, None, describe=f"6 nodes, every subset of {P6}, both arc orders, weights as listed and mod 3; every solver, every (s,t)"))
@@ -721,7 +837,12 @@ def jobs(tier, seed):
 def replay(v):
     w = v["witness"]
     r = new_result()
-    if v["function"] == "astar_grid":
+    if w.get("large"):
+        base = w["large"].split("/")[0]
+        names = [g[0] for g in large_graphs()]
+        i = names.index(base) * 2 + (1 if "/reversed_list" in w["large"] else 0)
+        r = _large_chunk(None, i, i + 1)
+    elif v["function"] == "astar_grid":
         g = w["grid"]
         cells = [x for row in g for x in row]
         costs = {int(k): val for k, val in w.get("costs", {}).items()} or None
